@@ -147,7 +147,7 @@ theorem LogInv.closeConn {srv : Server} (h : LogInv srv) (c : Nat) : LogInv (clo
 
 theorem LogInv.runInSession {srv : Server} (h : LogInv srv) (cfg : Config) (c : Nat) (ss : Session) (r : Request) :
     LogInv (runInSession cfg srv c ss r).1 := by
-  unfold Sess.runInSession
+  unfold Sess.runInSession Sess.runInSessionWith
   dsimp only
   split
   · exact ((h.putSession _).setConnSess _ _).endSession _
